@@ -33,11 +33,16 @@ def func_line(path, fname):
     raise KeyError(fname)
 
 
-def check_condition(path, fname, params=None, timeout=60, per_path=None, label=None):
+def check_condition(path, fname, params=None, timeout=60, per_path=None, label=None, unblock=None):
     """Returns result dict for one CrossHair condition."""
     t0 = time.time()
     line = func_line(path, fname)
-    cmd = [CROSSHAIR, 'check', '--report_all', '--per_condition_timeout', str(timeout)]
+    cmd = [CROSSHAIR, 'check']
+    if unblock:
+        # side effects the harness is allowed to perform (e.g. opening its own read-only scratch database files); the list is
+        # terminated by the next option
+        cmd += ['--unblock'] + list(unblock)
+    cmd += ['--report_all', '--per_condition_timeout', str(timeout)]
     if per_path:
         cmd += ['--per_path_timeout', str(per_path)]
     cmd.append(f'{path}:{line}')
@@ -126,7 +131,7 @@ def witness(path, fname, params=None, timeout=60):
 def run_many(jobs, workers=16):
     """jobs: list of dicts(path, fname, params, timeout, twin=<fname or None>, label).  Parallel; returns results in order."""
     def one(j):
-        r = check_condition(j['path'], j['fname'], j.get('params'), j.get('timeout', 60), j.get('per_path'), j.get('label'))
+        r = check_condition(j['path'], j['fname'], j.get('params'), j.get('timeout', 60), j.get('per_path'), j.get('label'), j.get('unblock'))
         r['bounds'] = j.get('bounds', j.get('params'))
         if j.get('twin') and r['status'] == HOLDS:
             w = witness(j['path'], j['twin'], j.get('params'), j.get('twin_timeout', 30))
